@@ -104,6 +104,13 @@ func genErrPlan(t *core.Tape, notes map[string]int, bin map[string][][]byte) *Er
 	if e.Plain && e.Msg == "" {
 		e.Msg = "plain"
 	}
+	if !e.Plain && !e.NilErr && t.Bool(1, 8, "err.wraps.ctx") {
+		// an explicitly coded error caused by a sub-operation's context error
+		// (a backend call with its own timeout): the code is the handler's
+		e.WrapCtx = 1 + t.Choose(2, "err.wraps.which")
+		e.Msg = "backend call failed: " + map[int]string{1: "context canceled", 2: "context deadline exceeded"}[e.WrapCtx]
+		notes["err_wraps_context_error"]++
+	}
 	if !e.Plain {
 		nd := t.Pick([]int{3, 2, 1, 1}, "err.ndetails")
 		for i := 0; i < nd; i++ {
